@@ -170,6 +170,7 @@ type tableOpts struct {
 	plainItems bool     // strings only
 	postAdd    bool     // allow Row.Add after attach, AddRow of pre-built rows, zero rows
 	midRender  []string // wrapper kinds created right after the table and rendered between building steps
+	earlyProp  string   // "align" / "skip": a value set on the defaults column before the table has any column
 }
 
 func (g *Gen) cellItem(o tableOpts) string {
@@ -199,6 +200,9 @@ func (g *Gen) buildTable(o tableOpts) string {
 		mids = append(mids, g.do("wrap "+k+" "+t))
 	}
 	g.mid[t] = mids
+	if o.earlyProp != "" {
+		g.do(fmt.Sprintf("setprop c:%s:0 %s %s", t[1:], o.earlyProp, map[string]string{"align": r.pick([]string{"a2", "a3"}), "skip": "b1"}[o.earlyProp]))
+	}
 	maybeRender := func() {
 		if len(mids) > 0 && r.chance(1, 3) {
 			g.do("render " + mids[r.n(len(mids))])
@@ -308,6 +312,11 @@ func (g *Gen) reattach(t string, num, den int) {
 	if id, ok := g.x.rowID[rows[i]]; ok {
 		g.do(fmt.Sprintf("addrow %s R%d", t, id))
 	}
+}
+
+// retireDefault: the value set early on the defaults column is replaced or withdrawn once the table is built
+func (g *Gen) retireDefault(t string, key string) {
+	g.do(fmt.Sprintf("setprop c:%s:0 %s %s", t[1:], key, map[string]string{"align": g.r.pick([]string{"nil", "a1", "a3", "a2"}), "skip": g.r.pick([]string{"nil", "b0"})}[key]))
 }
 
 func (g *Gen) assignProps(t string, key string, vals []string) {
